@@ -252,7 +252,7 @@ static Boolean DecodeBitArg(int Start, int Stop, LongWord* pResult) {
             StrCompSplitRef(&RegArg, &BitArg, &ArgStr[Start], pPos);
             return DecodeBitArg2(&RegArg, &BitArg, pResult);
         }
-        *pResult = EvalStrIntExpressionWithResult(&ArgStr[Start], UInt16, &EvalResult);
+        *pResult = EvalStrIntExpressionWithResult(&ArgStr[Start], UInt32, &EvalResult);
         if (EvalResult.OK) {
             ChkSpace(SegBData, EvalResult.AddrSpaceMask);
         }
